@@ -67,6 +67,7 @@ class IntRangeExpr(Sized):
             # Find all the ranges, and concatenate them
             ranges = []
             start = values_as_int[0]
+            end = start
             step = None
 
             for value in values_as_int[1:]:
@@ -79,6 +80,7 @@ class IntRangeExpr(Sized):
                     else:
                         ranges.append(IntRange(start, end, step))
                         start = value
+                        end = value
                         step = None
             ranges.append(IntRange(start, end, step or 1))
             return IntRangeExpr(ranges)
